@@ -79,6 +79,14 @@ def judge_case(col: common.Collector, ll: codecrun.LoadedLayer, msg: Dict[str, A
         return
     if kind == "ok" and o.value == enc.pdu:
         return  # byte-identical with the reference's own encoding of the request
+    if refcls == "wrong-type":
+        # python's bool is an int: the library takes True for the integer 1.  If the PDU is the
+        # one the reference builds for the assignment with the booleans read as integers,
+        # nothing was misrepresented beyond the quantisation the description prescribes
+        k_b, enc_b = codecrun.ref_encode(ll.ref, msg, _debool(values), request)
+        if k_b == "ok" and o.value == enc_b.pdu:
+            col.count("bool-taken-as-integer")
+            return
     expected: Any = values
     if kind == "ok":
         # quantisation: what the description prescribes is the reference's reading of its
@@ -144,6 +152,18 @@ def judge_service_entry(col: common.Collector, ll: codecrun.LoadedLayer, msg: Di
         col.violation(("service-entry-differs", how, "accepts" if via.ok else "rejects", cell), det)
     elif via.ok and bytes(via.value) != bytes(direct.value):
         col.violation(("service-entry-differs", how, "pdu", cell), det)
+
+
+def _debool(x: Any) -> Any:
+    if isinstance(x, bool):
+        return int(x)
+    if isinstance(x, dict):
+        return {k: _debool(v) for k, v in x.items()}
+    if isinstance(x, tuple):
+        return tuple(_debool(v) for v in x)
+    if isinstance(x, list):
+        return [_debool(v) for v in x]
+    return x
 
 
 def _restrict(decoded: Any, requested: Any) -> Any:
